@@ -17,4 +17,7 @@ def run(ctx):
         n += len(obs)
     from . import combine_proofs
 
-    return note + f" reindex_intermediates / reindex_ / reindex_numpy: {n} obligations." + combine_proofs.run(ctx, "C02")
+    from . import tree_proofs
+
+    # the tree builder carries "chunked = eager for every tree shape": enough levels, levels chained, every block in exactly its run
+    return note + f" reindex_intermediates / reindex_ / reindex_numpy: {n} obligations." + combine_proofs.run(ctx, "C02") + " " + tree_proofs.run(ctx, "C02")
